@@ -139,10 +139,17 @@ func cleanup(indexDir string, repos []uint32, now time.Time, shardMerging bool) 
 			_ = os.Chtimes(shard.Path, now, now)
 		}
 
-		if shardMerging && maybeSetTombstone(shards, repo) {
-			continue
+		// A repo can be alive in a compound shard and in simple shards at the
+		// same time. Tombstone it in the compound shards, since they may
+		// contain other repos, and only trash the simple shards.
+		simple := shards[:0]
+		for _, s := range shards {
+			if shardMerging && maybeSetTombstone([]shard{s}, repo) {
+				continue
+			}
+			simple = append(simple, s)
 		}
-		moveAll(trashDir, shards)
+		moveAll(trashDir, simple)
 	}
 
 	// Remove .tmp files from crashed indexer runs-- for example, if an indexer
